@@ -202,6 +202,10 @@ func (c patComp) build(rng *rand.Rand) string {
 		port = ":-1"
 	case "starjunk":
 		port = ":*8"
+	case "wrap32": // 2^32 + 80
+		port = ":4294967376"
+	case "wrap64": // 2^64 + 80
+		port = ":18446744073709551696"
 	}
 	long := ""
 	if rng.Intn(3) == 0 { // the defect may be arbitrarily long: the error must still name the WHOLE string
